@@ -4,7 +4,7 @@
 From Coq Require Import List NArith Bool.
 Import ListNotations.
 Require Import Parser SBase SFetch Pipe BreakProofs ScanBrk ScanBrkParse ScanBrkTop ScanBrkFetch ScanFuelAll.
-Require ScanBrkDir ScanBrkFlow ScanBrkPlain ScanBrkBlock ScanRelTop.
+Require ScanBrkDir ScanBrkFlow ScanBrkPlain ScanBrkBlock ScanRelTop ScanSafeStrTop.
 Local Open Scope nat_scope.
 
 Lemma next_token_brk md : brk_next_token md.
@@ -48,4 +48,23 @@ Proof.
   - left. apply pend_bad_panic. exact B.
   - right. left. apply pend_bad_panic. exact B.
   - right. right. exact R.
+Qed.
+
+(* with panic freedom of the string pipeline (ScanSafeStrTop.v) no exception is left *)
+Lemma no_panic (x : list N) : ~ is_panic (snd (run_str x)).
+Proof.
+  intros H. destruct (snd (run_str x)) eqn:E; cbn in H; try contradiction.
+  exact (ScanSafeStrTop.pipeline_never_panics_str x _ E).
+Qed.
+
+Lemma pipeline_crlf_total : forall x : list chr, nocr x ->
+  Forall2 EVR (fst (run_str x)) (fst (run_str (crlf x))) /\ PER (snd (run_str x)) (snd (run_str (crlf x))).
+Proof.
+  intros x Hx. destruct (pipeline_crlf x Hx) as [B|[B|R]]; [destruct (no_panic _ B)|destruct (no_panic _ B)|exact R].
+Qed.
+
+Lemma pipeline_cr_total : forall x : list chr, nocr x ->
+  Forall2 EVR (fst (run_str x)) (fst (run_str (cr x))) /\ PER (snd (run_str x)) (snd (run_str (cr x))).
+Proof.
+  intros x Hx. destruct (pipeline_cr x Hx) as [B|[B|R]]; [destruct (no_panic _ B)|destruct (no_panic _ B)|exact R].
 Qed.
